@@ -1682,8 +1682,12 @@ class Interp:
                     rt, awt = self._return_types(funcs)
                     if rt is None and awt is None and how == 'external':
                         rt = [External('%s()' % name)]
+                    extra = ()
+                    if recv is not None and how in ('external', 'unknown') and recv.term[0] not in (
+                            'external', 'module', 'self'):
+                        extra = (('recv', recv.term),)
                     value = AVal(('call', name, tuple(a.term for a in pos) + tuple(
-                        ('kw', k, v.term) for k, v in sorted(kw.items())), next(self._site)), rt, False, awt)
+                        ('kw', k, v.term) for k, v in sorted(kw.items())) + extra, next(self._site)), rt, False, awt)
             ev = st.emit('call', e, name=name, how=how, recv=recv, args=pos, kwargs=kw, targets=funcs,
                          value=value, callee=callee, awaited=awaited,
                          recv_alias=st.alias.get(recv.term) if recv is not None else None)
